@@ -291,7 +291,12 @@ func (ex *Exec) globalConst(pi *PtrInfo, st *State) (Val, bool) {
 		if _, ok := ex.declared[ref]; !ok {
 			ex.declare(ref, sInt)
 			ex.preAssume = append(ex.preAssume, and(app("<=", "1", ref), app("<=", ref, "top!0")))
+			var others []string
 			for other := range ex.sentinels {
+				others = append(others, other)
+			}
+			sortStrings(others)
+			for _, other := range others {
 				ex.preAssume = append(ex.preAssume, not(eq(ref, other)))
 			}
 			ex.sentinels[ref] = v.Type().Underlying().(*types.Pointer).Elem()
